@@ -1,35 +1,71 @@
-(* C13 (3): Fourier1 per-direction factor f1s n enclosed by interval arithmetic, n in [7, 10, 18, 31]
+(* C13 (3): Fourier1 per-direction factor f1s n enclosed by interval arithmetic on its closed form, n in [2, 15, 18, 31, 34, 47, 50, 63]
    (file generated once by a script, split for parallel compilation; independent of /repo). *)
-From Coq Require Import ZArith List Reals Lra.
+From Coq Require Import ZArith List Lia Reals Lra.
 From Interval Require Import Tactic.
 From Flocq Require Import Raux.
-From P Require Import C13_gen C13_model C13_proofs_weights.
+From P Require Import C13_gen C13_model C13_proofs_weights C13_proofs_f1c.
 Open Scope R_scope.
 
-Lemma f1s_bound_7 : 1 - / IZR 7 <= f1s 7 <= 1.
+Lemma f1s_bound_2 : 1 - / IZR 2 <= f1s 2 <= 1.
 Proof.
-  assert (H : Rabs (f1s 7 - (1 - / IZR 7 / 2)) <= / IZR 7 / 2).
-  { unfold f1s, fourier1_dir, sumR. ev. interval. }
+  rewrite f1s_closed_form by (clear; lia).
+  assert (H : Rabs (f1s_closed 2 - (1 - / IZR 2 / 2)) <= / IZR 2 / 2).
+  { unfold f1s_closed, f1_term, sumR. ev. interval. }
   apply Rabs_le_inv in H. lra.
 Qed.
 
-Lemma f1s_bound_10 : 1 - / IZR 10 <= f1s 10 <= 1.
+Lemma f1s_bound_15 : 1 - / IZR 15 <= f1s 15 <= 1.
 Proof.
-  assert (H : Rabs (f1s 10 - (1 - / IZR 10 / 2)) <= / IZR 10 / 2).
-  { unfold f1s, fourier1_dir, sumR. ev. interval. }
+  rewrite f1s_closed_form by (clear; lia).
+  assert (H : Rabs (f1s_closed 15 - (1 - / IZR 15 / 2)) <= / IZR 15 / 2).
+  { unfold f1s_closed, f1_term, sumR. ev. interval. }
   apply Rabs_le_inv in H. lra.
 Qed.
 
 Lemma f1s_bound_18 : 1 - / IZR 18 <= f1s 18 <= 1.
 Proof.
-  assert (H : Rabs (f1s 18 - (1 - / IZR 18 / 2)) <= / IZR 18 / 2).
-  { unfold f1s, fourier1_dir, sumR. ev. interval. }
+  rewrite f1s_closed_form by (clear; lia).
+  assert (H : Rabs (f1s_closed 18 - (1 - / IZR 18 / 2)) <= / IZR 18 / 2).
+  { unfold f1s_closed, f1_term, sumR. ev. interval. }
   apply Rabs_le_inv in H. lra.
 Qed.
 
 Lemma f1s_bound_31 : 1 - / IZR 31 <= f1s 31 <= 1.
 Proof.
-  assert (H : Rabs (f1s 31 - (1 - / IZR 31 / 2)) <= / IZR 31 / 2).
-  { unfold f1s, fourier1_dir, sumR. ev. interval. }
+  rewrite f1s_closed_form by (clear; lia).
+  assert (H : Rabs (f1s_closed 31 - (1 - / IZR 31 / 2)) <= / IZR 31 / 2).
+  { unfold f1s_closed, f1_term, sumR. ev. interval. }
+  apply Rabs_le_inv in H. lra.
+Qed.
+
+Lemma f1s_bound_34 : 1 - / IZR 34 <= f1s 34 <= 1.
+Proof.
+  rewrite f1s_closed_form by (clear; lia).
+  assert (H : Rabs (f1s_closed 34 - (1 - / IZR 34 / 2)) <= / IZR 34 / 2).
+  { unfold f1s_closed, f1_term, sumR. ev. interval. }
+  apply Rabs_le_inv in H. lra.
+Qed.
+
+Lemma f1s_bound_47 : 1 - / IZR 47 <= f1s 47 <= 1.
+Proof.
+  rewrite f1s_closed_form by (clear; lia).
+  assert (H : Rabs (f1s_closed 47 - (1 - / IZR 47 / 2)) <= / IZR 47 / 2).
+  { unfold f1s_closed, f1_term, sumR. ev. interval. }
+  apply Rabs_le_inv in H. lra.
+Qed.
+
+Lemma f1s_bound_50 : 1 - / IZR 50 <= f1s 50 <= 1.
+Proof.
+  rewrite f1s_closed_form by (clear; lia).
+  assert (H : Rabs (f1s_closed 50 - (1 - / IZR 50 / 2)) <= / IZR 50 / 2).
+  { unfold f1s_closed, f1_term, sumR. ev. interval. }
+  apply Rabs_le_inv in H. lra.
+Qed.
+
+Lemma f1s_bound_63 : 1 - / IZR 63 <= f1s 63 <= 1.
+Proof.
+  rewrite f1s_closed_form by (clear; lia).
+  assert (H : Rabs (f1s_closed 63 - (1 - / IZR 63 / 2)) <= / IZR 63 / 2).
+  { unfold f1s_closed, f1_term, sumR. ev. interval. }
   apply Rabs_le_inv in H. lra.
 Qed.
